@@ -657,8 +657,10 @@ m("C04", "default-type-string", "zpt/template.py",
 m("C04", "not-prefix-maps-exists", "zpt/template.py",
   "        'not': NotExpr,", "        'not': ExistsExpr,")
 m("C04", "lambda-empty-scope", "astutil.py",
-  "        self.scopes.append(set(self.scopes[-1]))",
-  "        self.scopes.append(set())")
+  """        # A nested scope sees the names bound by the enclosing ones.
+        self.scopes.append(set(self.scopes[-1]))""",
+  """        # A nested scope sees the names bound by the enclosing ones.
+        self.scopes.append(set())""")
 m("C04", "listcomp-handler-removed", "astutil.py",
   "    visit_ListComp = _visit_comprehension\n", "")
 m("C04", "not-evaluates-twice", TA,
